@@ -333,6 +333,35 @@ def run(ctx):
                 ctx.disagree(f"meaning:integrals:{route}", f"the Hamiltonian built from the integrals acts differently from "
                              f"sum h1 p^ q + 1/2 sum h2 p^ q^ r s on {len(bad)} determinants, e.g. {bad[0]}", desc)
     # ---- tensor tuples ---------------------------------------------------------------------------
+    # ---- operators given as strings (SparseHamiltonian(str), get_sparse_hamiltonian(str)): any operator order ----
+    for case in range(24 if quick else 300):
+        norb = rng.choice([2, 3])
+        nso = 2 * norb
+        r_ = rng.choice([1, 1, 2])
+        cre = [rng.randrange(nso) for _ in range(r_)]
+        na_ = sum(1 for m in cre if m % 2 == 0)
+        ann = [rng.choice([m for m in range(nso) if m % 2 == 0]) for _ in range(na_)] + \
+            [rng.choice([m for m in range(nso) if m % 2 == 1]) for _ in range(r_ - na_)]
+        term = [(m, 1) for m in cre] + [(m, 0) for m in ann]
+        rng.shuffle(term)
+        string = " ".join(f"{m}^" if dg else str(m) for m, dg in term)
+        desc = {"string": string, "norb": norb, "case": case}
+        w = C01.make_wfn(ctx, "single", norb, rng)
+        ents = U.wfn_entries(w)
+        want = U.spec_apply(d, norb, ents, [(1.0, term)], 0.0)
+        for route in ("get_sparse_hamiltonian", "SparseHamiltonian"):
+            try:
+                hs = fqe.get_sparse_hamiltonian(string) if route == "get_sparse_hamiltonian" else sparse_hamiltonian.SparseHamiltonian(string)
+                out = w.apply(hs)
+            except Exception as exc:
+                ctx.count(f"string-op-raises:{type(exc).__name__}")
+                continue
+            ctx.case(("string-op", case, route))
+            ctx.count("string-operator")
+            bad = U.compare_wfn(out, want, tol=1e-9)
+            if bad:
+                ctx.disagree("meaning:string-operator", f"{route}('{string}') acts differently from the operator string "
+                             f"({len(bad)} dets, e.g. {bad[0]})", desc)
     from fqe.fqe_decorators import build_hamiltonian
     for case in range(12 if quick else 100):
         norb = rng.choice([2, 3])
